@@ -395,9 +395,9 @@ DFS_QUICK = [  # (sems, progs, max runs, max steps, spurious budget)
     ("3", "A0;A0;A0", 2000, 60, 0), ("2", "A0;A0;A0", 4000, 60, 1), ("0", "A0;R0.R0;A0", 6000, 60, 0), ("0", "A0.W0;R0.O0", 4000, 60, 0),
     ("0", "W0.A0;O0.R0;B0", 4000, 60, 0),
 ]
-DFS_THOROUGH = [(s, p, 400000, 80, b) for (s, p, _, _, b) in DFS_QUICK] + [
-    ("1", "A0.R0;A0.R0;A0.R0", 400000, 90, 0), ("0", "W0;W0;O0;O0", 400000, 80, 0), ("0", "W0;W0;W0;B0", 400000, 80, 0),
-    ("2", "A0;A0;A0;R0", 400000, 80, 1), ("0", "A0;A0;R0.R0", 400000, 80, 1), ("0", "W0.W0;O0.B0", 400000, 80, 1),
+DFS_THOROUGH = [(s, p, 30000, 80, b) for (s, p, _, _, b) in DFS_QUICK] + [
+    ("1", "A0.R0;A0.R0;A0.R0", 30000, 90, 0), ("0", "W0;W0;O0;O0", 30000, 80, 0), ("0", "W0;W0;W0;B0", 30000, 80, 0),
+    ("2", "A0;A0;A0;R0", 30000, 80, 1), ("0", "A0;A0;R0.R0", 30000, 80, 1), ("0", "W0.W0;O0.B0", 30000, 80, 1),
 ]
 
 
@@ -478,7 +478,7 @@ def run(ctx, args):
             raise RuntimeError("native harness died on the corpus: %s" % err[-2000:])
         for w, a in zip(cl, o):
             runs.append(("corpus", w["sems"], w["nlists"], w["progs"], a))
-        dfs = DFS_QUICK if quick else DFS_THOROUGH
+        dfs = DFS_QUICK
         o, _, err = real(["dfs %s 1 %s %d %d %d" % (s, p, mr, ms, b) for (s, p, mr, ms, b) in dfs])
         ci = 0
         for a in o:
@@ -491,7 +491,7 @@ def run(ctx, args):
                 ci += 1
         if ci != len(dfs):
             raise RuntimeError("native harness died during the exhaustive runs (%d/%d configurations): %s" % (ci, len(dfs), err[-2000:]))
-        n_rand = 6000 if quick else 300000
+        n_rand = 6000
         lines, metas = [], []
         for i in range(n_rand):
             multi = i % 4 == 3
@@ -505,6 +505,13 @@ def run(ctx, args):
             runs.append(("random", sems, nadr, progs, a))
 
     # ---- (A) regenerate the atomics table as soon as the -O0 IR is there (the worker goes on with -O2 and the runs)
+    # ---- (B-N') Go's own sync primitives layered on the copied semaphore (stretch)
+    try:
+        layered_stats = layered(ctx, quick, ticket_less, cas_retry)
+    except HarnessBuildError as e:
+        layered_stats = {"skipped": "layered harness does not build: " + str(e)[-300:]}
+        ctx.log("layered sync harness not built:", str(e)[-600:])
+
     ctx.log("real code: %d runs recorded; waiting for the -O0 IR" % len(runs))
     ir_ready.wait()
     ir_text, ir_err = res["ir"], res["ir_error"]
@@ -537,72 +544,93 @@ def run(ctx, args):
         return out
 
 
-    # model: one request per single-address run, one per object for multi-address runs
-    mlines, mindex = [], []
-    parsed = []
-    for (origin, sems, nl, progs, raw) in runs:
-        parts = raw.split(" # ")
-        if len(parts) != 3:
-            raise RuntimeError("harness answered %r" % raw[:300])
-        sc, tr, end = parts
-        pp = parse_progs(progs)
-        steps = parse_trace(tr)
-        parsed.append((pp, steps, end))
-        if single_address(pp) and "," not in sems:
-            mindex.append(("whole", len(mlines)))
-            mlines.append("run %s %s %s %s" % (cfg, sems, strip_idx(progs), sc))
-        else:
-            objs = sorted(set((("S" if o[0] in "AR" else "L"), o[1]) for th in pp for o in th))
-            ent = []
-            for ob in objs:
-                mp, ms, rows = project(pp, steps, ob)
-                v0 = sems.split(",")[ob[1]] if ob[0] == "S" else "0"
-                ent.append((ob, len(mlines), rows))
-                mlines.append("run %s %s %s %s" % (cfg, v0, mp, ms))
-            mindex.append(("proj", ent))
-    mout = model(mlines)
+    def process(batch):
+        """model + correspondence + specification judge for a batch of recorded real runs"""
+        # model: one request per single-address run, one per object for multi-address runs
+        mlines, mindex = [], []
+        parsed = []
+        for (origin, sems, nl, progs, raw) in batch:
+            parts = raw.split(" # ")
+            if len(parts) != 3:
+                raise RuntimeError("harness answered %r" % raw[:300])
+            sc, tr, end = parts
+            pp = parse_progs(progs)
+            steps = parse_trace(tr)
+            parsed.append((pp, steps, end))
+            if single_address(pp) and "," not in sems:
+                mindex.append(("whole", len(mlines)))
+                mlines.append("run %s %s %s %s" % (cfg, sems, strip_idx(progs), sc))
+            else:
+                objs = sorted(set((("S" if o[0] in "AR" else "L"), o[1]) for th in pp for o in th))
+                ent = []
+                for ob in objs:
+                    mp, ms, rows = project(pp, steps, ob)
+                    v0 = sems.split(",")[ob[1]] if ob[0] == "S" else "0"
+                    ent.append((ob, len(mlines), rows))
+                    mlines.append("run %s %s %s %s" % (cfg, v0, mp, ms))
+                mindex.append(("proj", ent))
+        mout = model(mlines)
 
-    for ri, ((origin, sems, nl, progs, raw), (pp, steps, end), mi) in enumerate(zip(runs, parsed, mindex)):
-        sc, tr, _ = raw.split(" # ")
-        stats["runs"] += 1
-        stats["steps"] += len(steps) - 1
-        stats["ends"][end.split("@")[0].split(":")[0]] = stats["ends"].get(end.split("@")[0].split(":")[0], 0) + 1
-        stats["spurious_wakeups"] += sum(1 for s in steps if s.kind == "w")
-        stats["signal_picks"] += sum(1 for s in steps if s.pick is not None)
-        if origin == "random":
-            stats["random_runs"] += 1
-        if len(set(s.tid for s in steps[1:])) >= 2:
-            distinct.add((sems, progs, sc))
-        if end.startswith("panic") or (end.startswith("disabled") and origin != "corpus"):
-            mismatches.append((origin, sems, nl, progs, sc, "harness ended with " + end, ""))
-        # (a) correspondence
-        if mi[0] == "whole":
-            if mout[mi[1]] != tr + " # " + end and not (origin == "corpus" and end.startswith("disabled")):
-                mismatches.append((origin, sems, nl, progs, sc, raw[-400:], mout[mi[1]][-400:]))
-        else:
-            stats["multi_address_runs"] += 1
-            for (ob, li, rows) in mi[1]:
-                stats["projections"] += 1
-                ml = mout[li]
-                if ml.split(" # ")[-1].startswith("disabled") or model_rows(ml, ob) != rows:
-                    mismatches.append((origin, sems, nl, progs, sc, "object %s%d real %r" % (ob[0], ob[1], rows[-3:]), ml[-300:]))
-                    break
-        # (b) the specification on the real trace
-        sems0 = [int(x) for x in sems.split(",")]
-        for (key, what, detail) in judge(sems0, pp, steps, end):
-            stats["spec_failures"] += 1
-            rp = {"sems": sems, "nlists": nl, "progs": progs, "schedule": sc, "end": end, "detail": detail,
-                  "trace_tail": tr.split("|")[-6:]}
-            ctx.report(key or ("native:%s:%s:%s" % (sems, progs, sc))[:300], what, rp)
-        if len(samples) < 3 and origin in ("corpus", "dfs", "random") and (ri % 997 == 0 or origin == "corpus" and ri < 2):
-            samples.append({"origin": origin, "sems": sems, "progs": progs, "schedule": sc, "end": end, "last_step": tr.split("|")[-1]})
+        for ri, ((origin, sems, nl, progs, raw), (pp, steps, end), mi) in enumerate(zip(batch, parsed, mindex)):
+            sc, tr, _ = raw.split(" # ")
+            stats["runs"] += 1
+            stats["steps"] += len(steps) - 1
+            stats["ends"][end.split("@")[0].split(":")[0]] = stats["ends"].get(end.split("@")[0].split(":")[0], 0) + 1
+            stats["spurious_wakeups"] += sum(1 for s in steps if s.kind == "w")
+            stats["signal_picks"] += sum(1 for s in steps if s.pick is not None)
+            if origin == "random":
+                stats["random_runs"] += 1
+            if len(set(s.tid for s in steps[1:])) >= 2:
+                distinct.add((sems, progs, sc))
+            if end.startswith("panic") or (end.startswith("disabled") and origin != "corpus"):
+                mismatches.append((origin, sems, nl, progs, sc, "harness ended with " + end, ""))
+            # (a) correspondence
+            if mi[0] == "whole":
+                if mout[mi[1]] != tr + " # " + end and not (origin == "corpus" and end.startswith("disabled")):
+                    mismatches.append((origin, sems, nl, progs, sc, raw[-400:], mout[mi[1]][-400:]))
+            else:
+                stats["multi_address_runs"] += 1
+                for (ob, li, rows) in mi[1]:
+                    stats["projections"] += 1
+                    ml = mout[li]
+                    if ml.split(" # ")[-1].startswith("disabled") or model_rows(ml, ob) != rows:
+                        mismatches.append((origin, sems, nl, progs, sc, "object %s%d real %r" % (ob[0], ob[1], rows[-3:]), ml[-300:]))
+                        break
+            # (b) the specification on the real trace
+            sems0 = [int(x) for x in sems.split(",")]
+            for (key, what, detail) in judge(sems0, pp, steps, end):
+                stats["spec_failures"] += 1
+                rp = {"sems": sems, "nlists": nl, "progs": progs, "schedule": sc, "end": end, "detail": detail,
+                      "trace_tail": tr.split("|")[-6:]}
+                ctx.report(key or ("native:%s:%s:%s" % (sems, progs, sc))[:300], what, rp)
+            if len(samples) < 3 and origin in ("corpus", "dfs", "random") and (ri % 997 == 0 or origin == "corpus" and ri < 2):
+                samples.append({"origin": origin, "sems": sems, "progs": progs, "schedule": sc, "end": end, "last_step": tr.split("|")[-1]})
 
-    # ---- (B-N') Go's own sync primitives layered on the copied semaphore (stretch)
-    try:
-        layered_stats = layered(ctx, quick, ticket_less, cas_retry)
-    except HarnessBuildError as e:
-        layered_stats = {"skipped": "layered harness does not build: " + str(e)[-300:]}
-        ctx.log("layered sync harness not built:", str(e)[-600:])
+    CH = 4000
+    for i in range(0, len(runs), CH):
+        process(runs[i:i + CH])
+    runs = None
+    if not quick and not args.replay:
+        # thorough tier: more exhaustive configurations and random runs, streamed (real code -> model -> judge per batch)
+        for (s_, p_, mr, ms, b_) in DFS_THOROUGH:
+            o, _, err = real(["dfs %s 1 %s %d %d %d" % (s_, p_, mr, ms, b_)])
+            if not o or not o[-1].startswith("end "):
+                raise RuntimeError("native harness died during the exhaustive runs: %s" % err[-2000:])
+            stats["dfs_configs"] += 1
+            stats["dfs_complete"] += 1 if o[-1].endswith("true") else 0
+            batch = [("dfs", s_, 1, p_, a_[4:]) for a_ in o if a_.startswith("run ")]
+            for i in range(0, len(batch), CH):
+                process(batch[i:i + CH])
+        for _ in range(25):
+            lines, metas = [], []
+            for i in range(CH):
+                sems, nadr, progs = gen_prog_set(rng, i % 4 == 3)
+                lines.append("rand %s %d %s %d %d %d" % (sems, nadr, progs, rng.getrandbits(40) + 1, 160, rng.choice([0, 0, 30, 100])))
+                metas.append((sems, nadr, progs))
+            o, _, err = real(lines)
+            if len(o) != len(lines):
+                raise RuntimeError("native harness died during the random runs: %s" % err[-2000:])
+            process([("random", m[0], m[1], m[2], a_) for m, a_ in zip(metas, o)])
 
     # ---- (B-E) results of the compiled stress programs
     fut.result()
@@ -773,10 +801,16 @@ def judge_layered(scn, n, end, evs, final):
         starts = [(k, t) for (k, t, w) in evs if w == "waitstart"]          # order = ticket order (Wait registers under c.L)
         ticket = {t: i for i, (k, t) in enumerate(starts)}
         startk = {t: k for (k, t) in starts}
-        rets = []
+        rets, nl, regk = [], {}, {}
         for (k, t, w) in evs:
-            if w.startswith("waitret"):
-                rets.append((k, t, int(w.split(".")[2])))
+            if w.startswith("nladd."):           # the moment the waiter is registered (ticket drawn)
+                regk[t] = k
+            elif w.startswith("nlret."):           # ticket and notify counter when runtime_notifyListWait returned
+                nl[t] = (int(w.split(".")[1]), int(w.split(".")[2]))
+            elif w == "waitret":
+                if t in nl:
+                    ticket[t] = nl[t][0]
+                rets.append((k, t, nl.get(t, (0, 1 << 40))[1]))
         sig, bc, open_ = [], [], {}
         for (k, t, w) in evs:
             if w in ("sigbegin", "bcbegin"):
@@ -803,19 +837,19 @@ def judge_layered(scn, n, end, evs, final):
                               "started waiting is available for it (notify counter %d then)" %
                               (t, ticket[t] + 1, "st" if ticket[t] == 0 else "nd" if ticket[t] == 1 else "th", k, nn)))
         if end == "stuck":
-            asleep = [t for t in startk if not any(rt == t for (_, rt, _) in rets)]
+            asleep = [t for t in regk if not any(rt == t for (_, rt, _) in rets)]
             for t in asleep:
-                if any(b > startk[t] for (b, e, _) in bc):
-                    fails.append((None, "Cond: thread %d still sleeps in Wait although a Broadcast was issued after it started waiting" % t))
-                elif sum(1 for (b, e, _) in sig if b > startk[t]) > sum(1 for (k, _, _) in rets if k > startk[t]):
-                    fails.append((None, "Cond: thread %d still sleeps in Wait although more Signals were issued after it started waiting than waiters returned" % t))
+                if any(b > regk[t] for (b, e, _) in bc):
+                    fails.append((None, "Cond: thread %d still sleeps in Wait although a Broadcast was issued after it was registered as a waiter" % t))
+                elif sum(1 for (b, e, _) in sig if b > regk[t]) > sum(1 for (k, _, _) in rets if k > regk[t]):
+                    fails.append((None, "Cond: thread %d still sleeps in Wait although more Signals were issued after it was registered than waiters returned" % t))
     return fails
 
 
 def layered(ctx, quick, ticket_less, cas_retry):
     rng = ctx.rng
     binp = build_layered(ctx)
-    n_runs = 2500 if quick else 120000
+    n_runs = 1600 if quick else 60000
     scns = ["mutex", "rwmutex", "rwmutex", "waitgroup", "once", "cond-signal", "cond-broadcast", "cond-nosignal"]
     lines, metas = [], []
     for i in range(n_runs):
